@@ -235,4 +235,4 @@ def run(ctx, chk):
     sub = Sub(chk, "C08-c", lambda r: r in ("C07-c/value", "C07-c/insert", "C07-c/key", "C07-d/receipt", "C07-d/request"))
     rules_c07.begin(sub, crate)
     rules_c07.close(sub, crate, "commit_transaction")
-    chk.floor("receipt-chain obligations (shared with C07)", sub.count, 5)
+    chk.floor("receipt-chain obligations (shared with C07)", sub.count, 3)
